@@ -703,6 +703,17 @@ Proof.
   - right. exact (inverse_none_singular n B E).
 Qed.
 
+(* singularity by certificate: a vector accepted as non-zero solution of y B = 0 proves B singular *)
+Theorem null_certificate n B y z : vzerob n z = true -> check_btran n B y z = true -> veqb n y z = false ->
+  ~ nonsingular n B.
+Proof.
+  intros Z C NE NS. rewrite vzerob_true in Z. apply check_btran_spec in C.
+  assert (E : veqb n y z = true).
+  { apply veqb_true. intros j Hj. rewrite (Z j Hj). apply (NS (qnth y)); [|exact Hj].
+    intros k Hk. rewrite (C k Hk). apply Z. exact Hk. }
+  congruence.
+Qed.
+
 (* ---- examples: the hypotheses are satisfiable, the algorithm computes ------------------------- *)
 Example ex_inverse :
   inverse 3 [[2;1;0];[1;3;1];[0;1;4]] = Some [[11#18; -2#9; 1#18]; [-2#9; 4#9; -1#9]; [1#18; -1#9; 5#18]].
